@@ -31,7 +31,18 @@ fn base(rng: &mut Rng, b: u64) -> ConnScenario {
         let id = Identity { name: "CookieUser".into(), uuid: 77, props: vec![] };
         let body = cookie_json(Wall::default().base_s - 5, &client_addr, &id, Some("t"));
         client.auth_cookie = Some(signed_cookie(secret.as_ref().unwrap(), &body));
-        client.session_cookie = Some(serde_json::to_vec(&json!({"id": uuid_hyph(9), "server_address": "h", "server_port": 1, "trace_id": null})).unwrap());
+        // (the session cookie is unsigned, client-chosen JSON: trace ids of any length and alphabet, e.g. the 55 bytes of a W3C traceparent)
+        let trace: Value = match rng.below(8) {
+            0 => json!(""),
+            1 => json!("x"),
+            2 => json!("4bf92f3577b34da6a3ce929d0e0e4736"),
+            3 => json!("00-4bf92f3577b34da6a3ce929d0e0e4736-00f067aa0ba902b7-01"),
+            4 => json!(format!("00\u{e9}{}", "a".repeat(51))),
+            5 => json!(format!("{}\u{65e5}{}", "0".repeat(33), "b".repeat(19))),
+            6 => json!("t".repeat(1000)),
+            _ => Value::Null,
+        };
+        client.session_cookie = Some(serde_json::to_vec(&json!({"id": uuid_hyph(9), "server_address": "h", "server_port": 1, "trace_id": trace})).unwrap());
     }
     // a couple of ignorable configuration packets so that the configuration phase has frames to mutate
     client.info_delay_ns = ms(20);
